@@ -247,6 +247,7 @@ class Model:
             if s == "P" and self.is_orphan(k) and k in self.orphaned_outside:
                 self.state[k] = "T"
         doomed = set()
+        marked = {k for k, s in self.state.items() if s == "D"}
         work = [k for k, s in self.state.items() if s == "D"]
         # persistent orphans: removed from a delete-orphan relationship and not re-attached
         for k, s in list(self.state.items()):
@@ -262,7 +263,8 @@ class Model:
                             by = self.removed_by.get((k, r))
                             # one-to-many without reverse side: also the *deleted* ex-parent's flush examines what was removed from it
                             okst = ("S", "P", "D") if r in UNI else ("S", "P")
-                            seen_by_flush = seen_by_flush or (by is not None and self.state.get(by) in okst)
+                            # ... and only sees what was in the collection at the last flush (attached and removed again since: no net history)
+                            seen_by_flush = seen_by_flush or (by is not None and self.state.get(by) in okst and k in (self.committed.get((by, r)) or []))
                 if seen_by_flush:
                     work.append(k)
         while work:
@@ -285,6 +287,11 @@ class Model:
             for r in BY_SRC[k[0]]:
                 srck, dstk, uselist, rev = RELS[r]
                 if uselist and (rev is not None or r in UNI) and not self.has(r, "delete"):
+                    if self.rel[(k, r)] != (self.committed.get((k, r)) or []) and k not in marked:
+                        # the collection itself has unflushed changes and its owner is turned into a delete during the flush (orphan /
+                        # delete-orphan target of a deleted referrer): it was already pre-processed as a save, the de-association of
+                        # its remaining members is not performed - unspecified corner, foreign keys not judged
+                        continue
                     for m in self.members(k, r):
                         # members attached since the last flush are not de-associated by the delete (unit of work looks at
                         # unchanged / removed members only): their foreign key is not judged
@@ -769,6 +776,14 @@ class _Run:
                         return
                 if st_ == "S":
                     pending_in_orphan_cascade += [c for c in clo if m.state[c] == "P"]
+        # the same for everything else the flush itself decides to delete (e.g. the delete-orphan target of a many-to-one whose
+        # referrer is deleted): its delete cascade is registered at flush time and does not skip pending objects either
+        saved = dict(m.state)
+        doomed_preview, _n = m.flush()
+        m.state = saved
+        for k in sorted(doomed_preview):
+            if saved[k] == "S":
+                pending_in_orphan_cascade += [c for c in m.closure(k, "delete") if saved[c] == "P" and c not in pending_in_orphan_cascade]
         if pending_in_orphan_cascade and not pinned:
             self.excluded.append("delete cascade of an orphaned persistent object reaches a pending object (known finding: flush fails)")
             self.stop = True
